@@ -11,15 +11,19 @@ ap.add_argument("ids", nargs="*")
 ap.add_argument("--props", default=None)
 ap.add_argument("--skip-confirm", action="store_true")
 ap.add_argument("--tier", default="quick")
+ap.add_argument("--jobs", type=int, default=1)
+ap.add_argument("--seed", default=None, help="VERIF_SEED for the checks")
 a = ap.parse_args()
 SEED = "/verif/seeded"
 ids = a.ids or sorted(os.listdir(SEED))
 ALL = ["C%02d" % i for i in range(1, 21)]
 summary = []
-for sid in ids:
+
+
+def run_one(sid):
     d = os.path.join(SEED, sid)
-    if not os.path.isdir(d):
-        continue
+    if not os.path.isdir(d) or not os.path.exists(os.path.join(d, "meta.json")):
+        return
     meta = json.load(open(os.path.join(d, "meta.json")))
     prop = meta["property"]
     props = ALL if a.props == "all" else (a.props.split(",") if a.props else [prop])
@@ -35,7 +39,7 @@ for sid in ids:
             res["demo_clean"] = r.returncode
         r = subprocess.run(["patch", "-p1", "-s", "-d", tmp, "-i", os.path.join(d, "patch.diff")], capture_output=True, text=True)
         if r.returncode != 0:
-            print(sid, "PATCH FAILED", r.stdout, r.stderr); summary.append((sid, "patch-failed")); continue
+            print(sid, "PATCH FAILED", r.stdout, r.stderr); summary.append((sid, "patch-failed")); return
         if not a.skip_confirm:
             r = subprocess.run(["/venv/bin/python", demo], env=env, cwd=tmp, capture_output=True, text=True, timeout=600)
             res["demo_patched"] = r.returncode
@@ -44,6 +48,10 @@ for sid in ids:
                                cwd=tmp, env=env, capture_output=True, text=True, timeout=900)
             res["tests"] = r.stdout.strip().splitlines()[-1] if r.stdout.strip() else "?"
         env2 = dict(os.environ, VERIF_REPO=tmp)
+        if a.seed is not None:
+            env2["VERIF_SEED"] = str(a.seed)
+        if a.jobs > 1:
+            env2["VERIF_WORKERS"] = "8"
         res["checks"] = {}
         for p in props:
             r = subprocess.run(["/venv/bin/python", "/verif/check.py", p, "--tier", a.tier], env=env2, capture_output=True, text=True)
@@ -51,10 +59,15 @@ for sid in ids:
             res["checks"][p] = {"exit": r.returncode, "signatures": sigs[:6]}
             if r.returncode == 2:
                 print(r.stdout[-2000:], r.stderr[-1000:])
-        print(json.dumps(res))
+        print(json.dumps(res), flush=True)
         caught = [p for p, v in res["checks"].items() if v["exit"] == 1]
         summary.append((sid, "CAUGHT by " + ",".join(caught) if caught else "MISSED", res.get("demo_clean"), res.get("demo_patched"), res.get("tests")))
     finally:
         shutil.rmtree(tmp, ignore_errors=True)
-        shutil.rmtree("/verif/replays", ignore_errors=True)
-print("\n".join(str(s) for s in summary))
+
+
+from concurrent.futures import ThreadPoolExecutor
+with ThreadPoolExecutor(a.jobs) as ex:
+    list(ex.map(run_one, ids))
+shutil.rmtree("/verif/replays", ignore_errors=True)
+print("\n".join(str(s) for s in sorted(summary)))
